@@ -707,6 +707,32 @@ fn three_sets(ctx: &mut Ctx) {
                     let tmp = BDDSet::from_element(x, bits, &env);
                     acc.complement(&tmp);
                     want.remove(&x);
+                    // sets that die while they are empty / the universe / emptied again
+                    drop(BDDSet::with_env(bits, &env));
+                    let u = BDDSet::with_env(bits, &env);
+                    u.universe();
+                    drop(u);
+                    let e = BDDSet::from_element(x, bits, &env);
+                    e.empty();
+                    drop(e);
+                    if !acc.contains(x) == false {
+                        return Some(format!("element {x} is still reported after its removal"));
+                    }
+                }
+                // the accumulator itself goes through universe and empty with droppings in between
+                let other = BDDSet::with_env(bits, &env);
+                other.universe();
+                drop(BDDSet::with_env(bits, &env));
+                if !other.contains(0usize) {
+                    return Some("the universe does not contain 0 after another empty set was dropped".to_string());
+                }
+                other.empty();
+                {
+                    let t = BDDSet::with_env(bits, &env);
+                    t.universe();
+                }
+                if other.contains(0usize) {
+                    return Some("the empty set contains 0 after a universe set was dropped".to_string());
                 }
                 for e in 0..(1usize << bits) {
                     if acc.contains(e) != want.contains(&e) {
